@@ -64,7 +64,7 @@ POOL = [
     "query Q($v: Int) { echo(v: $v) a }",
     "query Q($v: Int) { item(filter: {id: $v}) }",
     "query Q($v: Int) { ids(list: [1, $v]) }",
-    "query A { a } query B($v: Int) { echo(v: $v) }",
+    "query A($v: Int = 11) { a echo(v: $v) } query B($v: Int = 22, $w: Int = 5) { x: echo(v: $v) y: echo(v: $w) }",
     "{ nope }",
     "query Q($v: Int) { a }",
     "{ a ",
@@ -87,12 +87,12 @@ def send(eng, idx, v, asbytes, opsel):
     if idx == 3:
         op = "B" if opsel else "A"
     ctx = {"fail": idx == 7 and opsel}
-    variables = {"v": v} if "$v" in POOL[idx] and not (idx == 8 and v is None) else {}
+    variables = {"v": v} if "$v" in POOL[idx] and not (idx in (3, 8) and v is None) else {}      # None = variable not provided where a default exists
     return env.run(eng.execute(q, variables=variables, operation_name=op, context=ctx))
 
 
 SH16 = [{"cfg": c, "first": f, "second": g, "b1": b, "o": o} for c in ENGS for f in range(len(POOL)) for g in range(len(POOL)) for b in (1, 0) for o in (1, 0) if c == "default" or (b, o) == (1, 1)]
-Q16 = [i for i, s in enumerate(SH16) if (s["b1"], s["o"]) == (1, 1) and (s["cfg"], s["first"], s["second"]) in (("default", 0, 0), ("default", 1, 1), ("default", 2, 2), ("default", 3, 3), ("default", 6, 0), ("default", 4, 1),
+Q16 = [i for i, s in enumerate(SH16) if ((s["b1"], s["o"]) == (1, 1) or (s["cfg"], s["first"], s["second"], s["b1"], s["o"]) == ("default", 3, 3, 0, 0)) and (s["cfg"], s["first"], s["second"]) in (("default", 0, 0), ("default", 1, 1), ("default", 2, 2), ("default", 3, 3), ("default", 6, 0), ("default", 4, 1),
                                                                                ("lru1", 1, 0), ("lru1", 2, 4), ("dict", 2, 2), ("dict", 8, 8), ("none", 1, 1), ("default", 7, 7))]
 
 
